@@ -22,6 +22,7 @@ extern char** environ;
 #define MEM_CAP ((size_t)256U << 20U)
 #define MAX_LIVE 64
 #define MAX_HANGS 5
+#define MAX_CRASHES 25
 
 // ---------------------------------------------------------------- tracking allocator
 typedef struct {
@@ -274,7 +275,9 @@ static void run_case(char* line)
     fputs("out=NULL", stdout);
   }
   if (tracked) {
-    // the returned block must be the one live block and hold strlen+1 bytes
+    // structural part: the allocator log; the returned block must be the one live block and hold
+    // strlen+1 bytes, after NULL nothing may be live
+    printf(" || log=%s", t.log ? t.log : "");
     if (out) {
       int i = tfind(&t, out);
       if (i < 0 || t.size[i] != strlen(out) + 1 || t.n_live != 1) {
@@ -283,7 +286,6 @@ static void run_case(char* line)
     } else if (t.n_live) {
       fputs(" LEAK", stdout);
     }
-    printf(" || log=%s", t.log ? t.log : "");
   }
   fputc('\n', stdout);
 
@@ -325,10 +327,11 @@ int main(void)
   volatile size_t* done = (volatile size_t*)mmap(NULL, sizeof(size_t), PROT_READ | PROT_WRITE, MAP_SHARED | MAP_ANONYMOUS, -1, 0);
   *done = 0;
   int hangs = 0;
+  int crashes = 0;
   while (*done < n) {
-    if (hangs >= MAX_HANGS) {
-      // a non-terminating build: do not spend 2 s on every remaining case
-      puts("out=SKIPPED-after-hangs");
+    if (hangs >= MAX_HANGS || crashes >= MAX_CRASHES) {
+      // a non-terminating or crashing build: do not spend 2 s (or a new worker) on every remaining case
+      puts(hangs >= MAX_HANGS ? "out=SKIPPED-after-hangs" : "out=SKIPPED-after-crashes");
       ++*done;
       continue;
     }
@@ -365,8 +368,10 @@ int main(void)
         ++hangs;
       } else if (WIFSIGNALED(status)) {
         printf("out=CRASH signal=%d\n", WTERMSIG(status));
+        ++crashes;
       } else {
         printf("out=CRASH exit=%d\n", WEXITSTATUS(status));
+        ++crashes;
       }
       ++*done;
     }
